@@ -19,7 +19,7 @@ func init() {
 		Level: "other",
 		Explanation: "Decided (structural necessary conditions of layout independence): (R1.1) inside the re-entrant object-resolution cycle the shared file handle is only used positionally (ReadAt / SectionReader / Stat / Close), never through its seek offset, so resolving an indirect /Length cannot disturb a suspended parse; (R1.2) inheritable page attributes are looked up on a cycle that follows /Parent, i.e. to any depth; (R1.3) decoded content streams are joined with PDF white space between them; (R1.4) the filter, xref-kind, font-subtype and /Length-type dispatch tables are complete; (R1.5) page leaves are appended in /Kids order; (R4.1/R4.3 are re-used: last startxref, newest-wins merge, cache discipline). " +
 			"Not decided: that extracted text equals the logical document, decoding correctness (C05/C07), object order/EOL variants at run time, the page count claim beyond returning /Count.",
-		Rules: []func(*eng.Ctx){rulePhysicalLayoutsEvaluated, ruleFontFollowsGraphicsStateEvaluated, ruleCMapProgramsEvaluated, ruleClassicXRefSpellingsEvaluated, ruleParsedCMapKept, ruleReadEOFIsNotFailure, ruleObjectParsersHaveResolver, ruleEscapes, loopVarRule("R1.LV", "core", "reader", "pages", "text", "contentstream", "font", "resolver"), ruleSharedHandle, ruleInheritWalk, ruleContentSep, ruleDispatchTables, rulePageOrder, ruleMergeOrder, ruleCacheDiscipline, ruleXRefStreamCursor, roleRule("R1.R", "core", "reader", "pages"), ruleReadBytesOwned, ruleFilterParmsParallelC01, ruleWorklistOrderC01, ruleFontsFromOwnResources, ruleA85GroupsInDigits, ruleSectionKindPerSection},
+		Rules: []func(*eng.Ctx){ruleASCIIChainsEvaluated, ruleObjectSpellingsEvaluated, rulePhysicalLayoutsEvaluated, ruleFontFollowsGraphicsStateEvaluated, ruleCMapProgramsEvaluated, ruleClassicXRefSpellingsEvaluated, ruleParsedCMapKept, ruleReadEOFIsNotFailure, ruleObjectParsersHaveResolver, ruleEscapes, loopVarRule("R1.LV", "core", "reader", "pages", "text", "contentstream", "font", "resolver"), ruleSharedHandle, ruleInheritWalk, ruleContentSep, ruleDispatchTables, rulePageOrder, ruleMergeOrder, ruleCacheDiscipline, ruleXRefStreamCursor, roleRule("R1.R", "core", "reader", "pages"), ruleReadBytesOwned, ruleFilterParmsParallelC01, ruleWorklistOrderC01, ruleFontsFromOwnResources, ruleA85GroupsInDigits, ruleSectionKindPerSection},
 	})
 }
 
